@@ -14,6 +14,7 @@ CONSTANTS
   RestoreOnReturn = TRUE
   EmbRestoreAll = TRUE
   SuperCheckFirst = FALSE
+  AncestryWalk = FALSE
   GuardCanonical = TRUE
   RegisterAfterCreate = TRUE
   NsCachesInit = TRUE
